@@ -30,6 +30,21 @@ CLAIMED = {
         note="Voxelisation convergence is a limit statement (search only, refining grids); largest_overlap's sqrt is run at Float; warning delivery through Python's filter machinery is search-only; Ellipsoid containment ignores rotation as the source notes; nested CSG is outside the property (pairs of primitives).",
         technique="Lean 4 theorems (induction over layers / shape trees, nlinarith for boxes, Real.sqrt_lt_sqrt) + exact rational correspondence + analytic-inequality search",
         ref="DESIGN.md §5 C20"),
+    "C01": dict(
+        text="Proof (Lean 4, reals) over a model of imageformation.py/interface.py in which the solver is a parameter `raw`: the hologram is pixelwise |s*E_x + p_x|^2 + |s*E_y + p_y|^2 of the field calcField produces, with p the normalised polarisation; intensity is |E_x|^2+|E_y|^2; the expansion p.p + s^2 I + 2s Re(E.p); scaling 0 gives exactly 1 for every non-zero transverse polarisation (and a stated counterexample shows the transverse hypothesis is needed); the unit-modulus phase factor does not change the intensity; one value per detector pixel in the detector's (x-major) order with the flat index a bijection; the value depends only on the arguments. Tied by correspondence through a recording proxy around the real theories (Mie, layered, Multisphere, T-matrix, mock): positions handed to the solver, field, intensity and hologram are reproduced by the Lean model run at Float from the recorded solver output, to 1e-12; to_vector / wavevector / flat order likewise.",
+        note="The compiled solvers being functions of their arguments (no hidden state) is the hypothesis `raw is a function`, searched by bit-identical shuffled call sequences; finiteness of doubles and xarray packing are search/correspondence only; point detectors return values indexed by point number in the detector's order.",
+        technique="Lean 4 theorems over a parametrised forward model + recording-proxy differential correspondence + formula/purity search on real solvers",
+        ref="DESIGN.md §5 C01"),
+    "C06": dict(
+        text="Proof (Lean 4): the superposed field is, point by point, the fold-sum of the members' fields in component-list order, and nested composites flatten left to right; on the Fortran projection routines TRANSLATED from mieangfuncs.f90 on every run (incfield, calc_scat_field, fieldstocart, radial_vect_to_cart) the per-point field is exactly linear in the incident polarisation for every amplitude matrix, with and without the radial term; channel c of a multi-channel calculation is the single-channel calculation with c's wavelength, polarisation and the scatterer parameters selected BY LABEL, and selection is invariant under re-ordering of dictionary keys (proved for distinct keys). Tied: translator + f2py function-by-function correspondence, one-point mie_fields vs the model with the series amplitudes, component lists and per-channel selection exact.",
+        note="xarray label selection is assumed to be a finite-map lookup; prep_schema's branches are covered by the multi-channel vs single-channel search; linearity of the compiled Multisphere/T-matrix solvers is search-only; MieLens linearity is proved in C05.",
+        technique="Lean 4 theorems over definitions regenerated from Fortran + differential correspondence against f2py exports + metamorphic search",
+        ref="DESIGN.md §5 C06"),
+    "C07": dict(
+        text="Proof (Lean 4): grid pixel (i,j) is at flat index i*ny+j and position (i*sx, j*sy, z); selecting pixels commutes with any pointwise map, hence for a pointwise solver the forward calculation on any selection of the detector's points (crop, random subset, permutation, explicit list) equals the selection of the full result, and a grid pixel gets the value of the explicit point; subset selection keeps values, coordinates and original axes; distinctness follows from distinct indices. Tied by exact correspondence of make_subset_data (with the selection it returns), flat and from_flat.",
+        note="Pointwise-ness of each compiled solver is the hypothesis (searched: grid == shuffled explicit points == subset == crop, bit-for-bit except the lens theories at 1e-9); np.random.choice distinctness/reproducibility and input immutability are search-only.",
+        technique="Lean 4 theorems (list/index lemmas) + exact correspondence + metamorphic search on real solvers",
+        ref="DESIGN.md §5 C07"),
 }
 
 NOT_YET = {}
